@@ -91,6 +91,13 @@ def run(ctx, build, verdict, ev):
                         break
             if not all(vlib.same_float(a, b) for a, b in zip(r1, rc1)):
                 clone_diff += 1
+            try:
+                with np.errstate(all="ignore"):
+                    rl = np.asarray(real.membership([float(v) for v in xarr[:5]]), dtype=float)
+                if rl.shape != (min(5, len(scal)),) or not all(vlib.same_float(a, b) for a, b in zip(rl, scal[:5])):
+                    verdict.add_violation(f"{name}:list-argument", f"{name}{args}.membership(list) is not the elementwise result", {"term": name, "params": p, "x": [float(v) for v in xarr[:5]]}); nviol += 1
+            except Exception as ex:  # noqa
+                verdict.add_violation(f"{name}:list-argument", f"{name}{args}.membership(list) raises {type(ex).__name__}: {ex}", {"term": name, "params": p, "x": [float(v) for v in xarr[:5]]}); nviol += 1
             a_lits.append(f"({ps_lit}, {vlib.coq_list(vlib.fhex(x) for x in xarr)}, {vlib.coq_list(vlib.fhex(r) for r in r1)}, {vlib.oracle_lit(tbl)})")
             a_idx.append(("array", name, p, [float(x) for x in xarr], [float(r) for r in r1]))
             evaluations += len(xarr)
